@@ -818,7 +818,7 @@ func genRawBody(cfg *RunCfg) ([]byte, string) {
 		}
 		return b, "all-bytes"
 	case k < 6:
-		n := PickLen(r, []int{65535, 65536, 70000, 200000})
+		n := PickLen(r, []int{4096, 9000, 16384, 65535, 65536, 70000, 200000})
 		if cfg.Tier != "thorough" && n > 70000 {
 			n = 70000
 		}
@@ -1204,9 +1204,9 @@ func runC19(cfg *RunCfg) {
 		observed := VL(d.val(c.push), p.val(c.push),
 			VL(VN(int64(p.fwdCalls)), VB([]byte(p.labelIP)), VB([]byte(p.labelMeth))),
 			VBool(unchanged))
-		// Base/Val.v's reader is quadratic in the length of one atom; pairs with a body above
-		// 4 KiB are checked by the oracle above only, not replayed through the extracted model.
-		if len(inputs)+len(observed) <= 60000 {
+		// case lines are kept under about 120 KB (AGENT_GUIDE performance notes); pairs with
+		// bigger bodies are checked by the oracle above only, not replayed through the model.
+		if len(inputs)+len(observed) <= 120000 {
 			cw.Add(inputs, observed)
 			st.Count("model-replay:yes")
 		} else {
